@@ -649,10 +649,7 @@ def rand_type(rnd, depth, open_strings=False, big=True):
         ps = sorted((rnd.choice((-2, -1, 0, 1, 2, 3, 4)), rnd.randint(-3, 3)) for _ in range(2))
         if all(a == 0 for a, _ in ps):
             ps[1] = (rnd.choice((1, 2, 3, 4)), ps[1][1])
-        if ps[0][0] == -2:
-            ps[0] = (-2, abs(ps[0][1]))      # IntRange limits live in +-2^64
-        if ps[1][0] == 4:
-            ps[1] = (4, -abs(ps[1][1]))
+        ps = [(a, abs(d)) if a == -2 else (a, -abs(d)) if a == 4 else (a, d) for a, d in ps]   # IntRange limits live in +-2^64
         ps.sort()
         return {'k': k, 'min': {'a': ps[0][0], 'd': ps[0][1]}, 'max': {'a': ps[1][0], 'd': ps[1][1]}}
     if k == 'scaled':
